@@ -36,14 +36,14 @@ def build():
         r matches Ok(s) ==> exists|h: JwsProtectedHeader| h.alg@ == crate::acx::alg_name(*sign_alg)
             && (h.jwk matches Some(j) && crate::acx::jwk_of(*key_pair, j)) && h.kid is None && h.nonce == nonce && h.url@ == url@
             && is_jws(s@, KeyOrMac::Key(*key_pair), *sign_alg, serde_json::ser_spec(h), payload@), //@C04.jwk_header
-""", at=[("after_stmt", "let protected = JwsProtectedHeader", 1, "let ghost protected_hdr__ = protected;")])})
+""", at=[("after_stmt_re", r"let (\w+) = JwsProtectedHeader \{", 1, "let ghost protected_hdr__ = $1;")])})
     u.verify(J, "encode_kid", "jws", props=["C04"], fns={"encode_kid": FnSpec(ret="r", sig="""
     ensures
         // every other request: the account URL travels as kid, the nonce and the exact URL are in the header, there is no jwk
         r matches Ok(s) ==> exists|h: JwsProtectedHeader| h.alg@ == crate::acx::alg_name(*sign_alg) && h.jwk is None
             && (h.kid matches Some(k) && k@ == key_id@) && (h.nonce matches Some(n) && n@ == nonce@) && h.url@ == url@
             && is_jws(s@, KeyOrMac::Key(*key_pair), *sign_alg, serde_json::ser_spec(h), payload@), //@C04.kid_header
-""", at=[("after_stmt", "let protected = JwsProtectedHeader", 1, "let ghost protected_hdr__ = protected;")])})
+""", at=[("after_stmt_re", r"let (\w+) = JwsProtectedHeader \{", 1, "let ghost protected_hdr__ = $1;")])})
     u.verify(J, "encode_kid_mac", "jws", props=["C04"], fns={"encode_kid_mac": FnSpec(ret="r", sig="""
     ensures
         // external account binding: HMAC with the hash matching the HS algorithm, kid, no nonce
@@ -55,8 +55,8 @@ def build():
                ("T-B64", r"b64_encode\(payload\)", "crate::vb64::b64_encode_bytes(payload)"),
                ("T-B64", r"b64_encode\(&signature\)", "crate::vb64::b64_encode_bytes(&signature)"),
                ("T-STR", r"signing_input\.as_bytes\(\)", "crate::vb64::str_as_bytes(&signing_input)")],
-        at=[("after_stmt", "let protected = JwsProtectedHeader", 1, "let ghost protected_hdr__ = protected;"),
-            ("after_stmt", "let protected = serde_json::to_string", 1, "let ghost protected_json__ = protected@;")])})
+        at=[("after_stmt_re", r"let (\w+) = JwsProtectedHeader \{", 1, "let ghost protected_hdr__ = $1;"),
+            ("after_stmt_re", r"let (\w+) = serde_json::to_string\(&\w+\)\?;", 1, "let ghost protected_json__ = $1@;")])})
     return u
 
 
